@@ -80,8 +80,36 @@ class Imm:
 
 
 class PN:
-    def __init__(self, n):
-        self.n = n
+    """reference to the node named n.  lit: what the pinned code reads instead when the name is spelled like a literal of
+    the site (KNOWN finding, see code_reads): a literal object, or 'panic'"""
+
+    def __init__(self, n, lit=None):
+        self.n, self.lit = n, lit
+
+
+# node names a sloppy "is it a number / a boolean?" test would misread; all are legal names (start with a letter) and none is
+# a literal of the schema at any site except Yes / No / true / false at Boolean sites (see code_reads)
+POOL = ["inf", "Inf", "INFINITY", "Infinity", "infinity", "nan", "NAN", "Nan", "NaNx", "INFx", "e5", "E10", "x0", "xFF", "OxFF",
+        "True", "False", "Yes", "No", "true", "false", "On", "Off"]
+UNDERSCORE = ["_x", "_1", "__Gain"]
+CODE_VIEW = False      # expectation functions use PN.lit (the known misreading) instead of the reference when set
+
+
+def code_reads(name, site):
+    """KNOWN finding: the literal the code reads for a reference at an ImmOrPNode site of type site ('i' i64, 'f' f64,
+    'b' bool) when the node's legal name is spelled like a literal there; 'panic' for a name starting with an underscore
+    (read as a numeral); None when the reference is read as a reference"""
+    if site == "f" and name == "INF":
+        return FL("inf")
+    if site == "f" and name == "NaN":
+        return FL("text", "NaN")
+    if site == "b" and name in ("Yes", "true"):
+        return BLit(True)
+    if site == "b" and name in ("No", "false"):
+        return BLit(False)
+    if site in ("i", "f") and name.startswith("_"):
+        return "panic"
+    return None
 
 
 def fbits(x):
@@ -186,6 +214,8 @@ def eb(b):
 
 
 def eimm(f, x):
+    if isinstance(x, PN) and CODE_VIEW and x.lit is not None:
+        return [0] + f(x.lit)
     return [0] + f(x.v) if isinstance(x, Imm) else [1] + es(x.n)
 
 
@@ -743,7 +773,10 @@ class Boolean(Node):
     def chunks(self, ctx):
         on = 1 if self.on is None else self.on.val
         off = 0 if self.off is None else self.off.val
-        v = [0, on if self.value.v.val else off] if isinstance(self.value, Imm) else [1] + es(self.value.n)
+        val = self.value
+        if isinstance(val, PN) and CODE_VIEW and val.lit is not None:
+            val = Imm(val.lit)
+        v = [0, on if val.v.val else off] if isinstance(val, Imm) else [1] + es(val.n)
         return [head(5, self.attr, self.eb) + eb(bv(self.streamable)) + v + [on, off] + ev(es, self.selected)]
 
     def names(self):
@@ -1240,14 +1273,39 @@ class Gen:
 
     # -- atoms
     def fresh_name(self):
+        if self.n == 0:
+            self.used = set()
         self.n += 1
         r = self.r
+        if r.chance(1, 4):
+            nm = r.choice(POOL)          # nodes legally NAMED like float / integer / boolean words
+            if nm not in self.used:
+                self.used.add(nm)
+                return nm
         return r.choice(["N%d", "Node_%d", "a%d", "Zz%dQ", "n_%d_x"]) % self.n
 
-    def ref(self):
-        """a reference to some node (declared or not: the parser does not resolve references)"""
+    def ref(self, site=None):
+        """a reference to some node (declared or not: the parser does not resolve references).  site: the type of the
+        ImmOrPNode site the reference stands at ('i', 'f', 'b'), None elsewhere.  Half of the references are drawn from POOL;
+        names the code is KNOWN to misread at that site are used by the probe generator only."""
         r = self.r
+        if getattr(self, "probe_reserved", False) and site in ("i", "f", "b") and r.chance(1, 2):
+            cands = [n for n in ["INF", "NaN", "Yes", "No", "true", "false"] + UNDERSCORE if code_reads(n, site) is not None]
+            if cands:
+                return r.choice(cands)
+        if r.chance(1, 2):
+            return r.choice([n for n in POOL if code_reads(n, site) is None])
         return r.choice(["R%d" % r.below(6), "Ref_%d" % r.below(4), "x", "Q9", "INFx", "Yesterday", "t_1"])
+
+    def pn(self, site):
+        n = self.ref(site)
+        x = PN(n, code_reads(n, site))
+        if x.lit is not None:
+            self.reserved_made = getattr(self, "reserved_made", []) + [x]
+        return x
+
+    def site_of(self, f):
+        return "f" if f == self.fl else "b" if f == self.bl else "h" if f == self.hl else "i"
 
     def opt(self, f, num=1, den=2):
         return f() if self.r.chance(num, den) else None
@@ -1308,11 +1366,8 @@ class Gen:
                                     "1e308", "4.9e-324", "+2.5", ".5", "5.", "123456789012345678", "-7.25e+2"]))
 
     def imm(self, f, ref=None):
-        return PN((ref or self.ref)()) if self.r.chance(1, 3) else Imm(f())
-
-    def fref(self):
-        """references in float context: the names INF / NaN would be read as literals (documented)"""
-        return self.ref()
+        """an ImmOrPNode site: literal drawn by f, or a reference (two out of five)"""
+        return self.pn(self.site_of(f)) if self.r.chance(2, 5) else Imm(f())
 
     # -- parts
     def attr(self, name=None):
@@ -1438,7 +1493,7 @@ class Gen:
 
     def k_boolean(self):
         r = self.r
-        v = PN(r.choice(["R1", "Flag_2", "b", "Yesterday", "trueish"])) if r.chance(1, 3) else Imm(self.bl())
+        v = self.imm(self.bl)
         return Boolean(self.attr(), self.ebase(invs=True), self.opt(self.bl), v, self.opt(self.il), self.opt(self.il),
                        self.many(self.ref))
 
@@ -1461,7 +1516,7 @@ class Gen:
                 self.opt(lambda: self.il(-5, 400)))
 
     def k_float(self):
-        of = lambda: self.opt(lambda: self.imm(self.fl, self.fref))
+        of = lambda: self.opt(lambda: self.imm(self.fl))
         return Float(self.attr(), self.ebase(invs=True), self.opt(self.bl), self.vk(self.fl), of(), of(), of(),
                      *self.float_tail())
 
